@@ -43,16 +43,17 @@ Fixpoint evs_ok (ops : list op) (es : list event) (os : list oev) : bool :=
   | _, _ => false
   end.
 
-Fixpoint replay (cs col row : Z) (all : list op) (s : st) (ops : list op) (os : list obs) : bool :=
+Fixpoint replay (cs col row : Z) (fx : bool) (all : list op) (s : st) (ops : list op) (os : list obs) : bool :=
   match ops, os with
   | [], [] => negb (stuck s)
   | o :: ops', O evs fp :: os' =>
-      let '(s1, e) := step cs col row s o in
-      evs_ok all e evs && (fp_state s1 =? fp) && replay cs col row all s1 ops' os'
+      let '(s1, e) := step cs col row fx s o in
+      evs_ok all e evs && (fp_state s1 =? fp) && replay cs col row fx all s1 ops' os'
   | _, _ => false
   end.
 
 Definition ok (c : case) : bool :=
-  match c with CHist cs col row ops os => replay cs col row ops st0 ops os end.
+  (* dual: the chunk-removal loop of trimAged as it is (fx = false) or repaired (fx = true) *)
+  match c with CHist cs col row ops os => replay cs col row false ops st0 ops os || replay cs col row true ops st0 ops os end.
 
 Definition mism := mismatches ok.
